@@ -49,12 +49,12 @@ def runSearch (j : Json) : R (Json × Json) := do
   let t ← treeOfJson (← getField j "tree")
   let startL ← getNat j "start"
   let some s := findLabel startL t | throw "start not found"
-  -- attrs: [[label, name, value], …]  (value: integer)
+  -- attrs: [[label, name, value], …]  (value: any JSON scalar, compared by its JSON text; `null` = None)
   let aa ← getArr j "attrs"
   let attrs ← aa.toList.mapM (fun e => do
     let a ← asArr e
-    pure ((← asNat a[0]!), (← asStr a[1]!), (← asInt a[2]!)))
-  let attr : Tree Nat → String → Option Int := fun n name =>
+    pure ((← asNat a[0]!), (← asStr a[1]!), (a[2]!).compress))
+  let attr : Tree Nat → String → Option String := fun n name =>
     (attrs.find? (fun e => e.1 == n.label && e.2.1 == name)).map (fun e => e.2.2)
   let qs ← getArr j "queries"
   let mut ms : Array Json := #[]
@@ -83,7 +83,7 @@ def runSearch (j : Json) : R (Json × Json) := do
       ss := ss.push (searchResJ optJ' (Spec.findS F S m s))
     | "findall_by_attr" =>
       let name ← getStr q "name"
-      let value ← asInt (← getField q "value")
+      let value := (← getField q "value").compress
       let mn ← getOptInt q "mincount"
       let mx ← getOptInt q "maxcount"
       ms := ms.push (searchResJ labsJ (Search.findallByAttr attr value name m mn mx s))
@@ -91,7 +91,7 @@ def runSearch (j : Json) : R (Json × Json) := do
         (Spec.findallS (fun n => attr n name == some value) (fun _ => false) m mn mx s))
     | "find_by_attr" =>
       let name ← getStr q "name"
-      let value ← asInt (← getField q "value")
+      let value := (← getField q "value").compress
       ms := ms.push (searchResJ optJ' (Search.findByAttr attr value name m s))
       ss := ss.push (searchResJ optJ' (Spec.findS (fun n => attr n name == some value) (fun _ => false) m s))
     | f => throw s!"unknown search fn {f}"
